@@ -26,7 +26,7 @@ def _hook(event, args):
 sys.addaudithook(_hook)
 
 ALPHABET = ["/", ".", "..", "a", "f.txt", "%2e", "%2f", "%2F", "%5c", "\\", "%00", "\0", "%c0%af", "%ff", "?x", "//",
-            "%25", "secret.txt", "root-evil", "%41", "sub"]
+            "%25", "secret.txt", "root-evil", "%41", "sub", "%3f", "%3F"]
 
 TREE = {
     "secret.txt": "TOP SECRET above the root\n",
@@ -47,6 +47,8 @@ TREE = {
     "root/\\": "root/backslash\n",
     "root/a\\f.txt": "root/a-backslash-f.txt\n",
     "root/%2e%2e": "root/%2e%2e literal\n",
+    "root/f.txt?x": "root/f.txt?x (named by f.txt%3fx)\n",
+    "root/a?": "root/a? (named by a%3f)\n",
 }
 
 KIND = {"file": 0, "ENOENT": 1, "EISDIR": 2, "ENOTDIR": 3, "ENAMETOOLONG": 4, "EACCES": 5, "OTHER": 6}
@@ -71,9 +73,22 @@ def probe(path):
         return [KIND["OTHER"], b""]
 
 
-def mkcfg(rpath, filemode, template, suffix="", key="", ph=None):
-    return {"rpath": rpath, "filemode": filemode, "target": "rootfile.txt" if filemode else "root", "suffix": suffix,
-            "key": key, "ph": ph, "cont": True, "ign": 0, "template": template, "tpre": "", "tsuf": ""}
+def mkcfg(rpath, filemode, template, suffix="", key="", ph=None, target_raw=None):
+    cfg = {"rpath": rpath, "filemode": filemode, "target": "rootfile.txt" if filemode else "root", "suffix": suffix,
+           "key": key, "ph": ph, "cont": True, "ign": 0, "template": template, "tpre": "", "tsuf": ""}
+    if target_raw is not None:
+        cfg["target_raw"] = target_raw
+    return cfg
+
+
+# root_dir / file configured relative to the working directory, with a trailing slash, or (file) non-normalised,
+# missing, a directory, below a regular file.  The handler gets the string verbatim; the model gets its abspath.
+RAW_ROOTS = ["root", "root/", "$BASE/root/"]
+RAW_FILES = ["rootfile.txt", "./rootfile.txt", "$BASE/root/../rootfile.txt", "nothere.txt", "$BASE/root/../nothere.txt",
+             "$BASE/rootfile.txt/below", "root", "root/a/../f.txt"]
+# root_dir spellings for which the unchanged code serves nothing at all (see docs/C04.md, "Found about the real
+# code"); only generated when C04_NONNORMAL_ROOT=1
+RAW_ROOTS_NONNORMAL = ["./root", "$BASE/sub/../root", "$BASE//root", "root/."]
 
 
 def all_configs():
@@ -90,6 +105,13 @@ def all_configs():
     # a suffix that is not a plain extension: it is appended after normpath, verbatim (TFTP only, no template:
     # Jinja's loader would normalise the name once more)
     out.append(mkcfg("/", False, False, "/../f.txt"))
+    roots = RAW_ROOTS + (RAW_ROOTS_NONNORMAL if os.environ.get("C04_NONNORMAL_ROOT") else [])
+    for template in (True, False):
+        for raw in roots:
+            out.append(mkcfg("/", False, template, "", target_raw=raw))
+        out.append(mkcfg("/p", False, template, ".j2", target_raw="root"))
+        for raw in RAW_FILES:
+            out.append(mkcfg("/p", True, template, target_raw=raw))
     return out
 
 
@@ -126,6 +148,7 @@ class C04(Check):
         self._tree = True
         for rel, content in TREE.items():
             fileh.write_file(rel, content)
+        os.chdir(fileh.base_dir())       # relative root_dir / file options are relative to this directory
         # warm up lazily imported modules so that their files are not counted as opened by a request
         for cfg in (mkcfg("/", False, True), mkcfg("/", False, False)):
             for tftp in (False, True):
@@ -155,16 +178,21 @@ class C04(Check):
         if os.environ.get("C04_N"):
             n_all = int(os.environ["C04_N"])
         for ci, cfg in enumerate(cfgs):
-            main = (cfg["rpath"] == "/" and not cfg["filemode"])
+            main = (cfg["rpath"] == "/" and not cfg["filemode"] and cfg.get("target_raw") is None)
             n = n_all if (main and not cfg["suffix"] and (tier == "quick" or not cfg["template"])) else n_all - 1
-            strings = list(fileh.tokens_upto(ALPHABET, n))
+            if cfg.get("target_raw") not in (None, "root") and tier != "quick":
+                n = n_all - 2
+            strings_all = list(fileh.tokens_upto(ALPHABET, n))
+            strings_tftp = strings_all if (tier == "quick" or n < 4) else list(fileh.tokens_upto(ALPHABET, n - 1))
             for tftp in (False, True):
+                strings = strings_tftp if tftp else strings_all
                 if "/" in cfg["suffix"] and not tftp:
                     continue      # the HTTP class derives the content type from basename minus suffix (asserts)
                 seen = set()
                 # witnesses of the known failure modes first (ENOTDIR, EISDIR, ENAMETOOLONG, traversal)
                 for pre in prefixes(cfg):
-                    for u in (pre + "/f.txt/a", pre + "/a/f.txt/..", pre + "/a", pre + "/a/", pre + "/../secret.txt",
+                    for u in (pre, pre + "/f.txt", pre + "/nope", pre + "/sub/nope", pre + "/sub", pre + "/a/f.txt/a/a",
+                              pre + "/f.txt/a", pre + "/a/f.txt/..", pre + "/a", pre + "/a/", pre + "/../secret.txt",
                               pre + "/%2e%2e/secret.txt", pre + "/..%2fsecret.txt", pre + "/../root-evil/f.txt",
                               pre + "/a/../f.txt", pre + "/%2541", pre + "/f.txt%00", pre + "/a\\f.txt", pre + "/..a",
                               pre + "//f.txt", pre + "/a//f.txt", pre + "/./f.txt", pre + "/f.txt/", pre + "/f.txt/."):
@@ -183,7 +211,7 @@ class C04(Check):
                                 seen.add(u)
                                 yield {"tftp": tftp, "cfg": cfg, "uri": u}
                     # random longer requests and over-long segments
-                    for _ in range(150 if tier == "quick" else 1500):
+                    for _ in range(150 if tier == "quick" else 800):
                         k = rng.randrange(n + 1, n + 6)
                         u = pre + "".join(rng.choice(ALPHABET) if rng.random() < 0.85 else
                                           rng.choice(["%%%02x" % rng.randrange(256), chr(rng.randrange(1, 256)),
@@ -193,7 +221,7 @@ class C04(Check):
                             seen.add(u)
                             yield {"tftp": tftp, "cfg": cfg, "uri": u}
                     u = pre + "/" + "a/" * 2100 + "f.txt"      # longer than PATH_MAX
-                    if u not in seen:
+                    if u not in seen and (tier != "quick" or main or ci % 5 == 0):
                         seen.add(u)
                         yield {"tftp": tftp, "cfg": cfg, "uri": u}
 
@@ -214,6 +242,9 @@ class C04(Check):
         finally:
             _REC["on"] = False
         opened = [p for p in _REC["paths"] if not p.startswith(_PY_DIRS)]
+        if cfg.get("target_raw") is not None:
+            # configured relative / non-normalised: compare what the opened names denote
+            opened = [os.path.abspath(os.path.join(fileh.base_dir(), p)) for p in opened]
         return [True, True, opened, cls, body if body is not None else b""]
 
     def cfgline(self, c):
